@@ -13,6 +13,7 @@
        fs[k]    packed label of from_seconds(exact boundary (n0+k)*DEN/NUM)
        fm[k]    packed label of from_seconds(boundary + half a frame)
        ff[k]    the same with the argument given as a float
+       fb[k]    packed label of from_seconds(float(boundary)) when a float holds the boundary exactly, else -1
        af[k]    packed label after add_frames(1) on the label of frame n0+k   (must be the next Tick)
        ow[k], on[k], od[k]   to_temporal_offset() = ow + on/od (lowest terms)
    kind "add":  n0, d, res : label(n0).add_frames(d) -> packed res   (n single additions = one of d)
@@ -48,6 +49,7 @@ CheckObs(ri, rec, kk, nn, lbl) ==
       /\ Chk(Unpack(rec.fs[kk]) = lbl, ri, nn, "from_seconds_boundary")
       /\ Chk(Unpack(rec.fm[kk]) = lbl, ri, nn, "from_seconds_midframe")
       /\ Chk(Unpack(rec.ff[kk]) = lbl, ri, nn, "from_seconds_float_midframe")
+      /\ Chk(rec.fb[kk] = -1 \/ Unpack(rec.fb[kk]) = lbl, ri, nn, "from_seconds_float_boundary")
       /\ Chk(Unpack(rec.af[kk]) = nxt, ri, nn, "add_one_frame_is_tick")
       \* wo = 1 iff the rational offset read from ONE object before and after it is advanced by a frame is nn / rate and
       \* (nn + 1) / rate (exact comparison of rationals, done where the values are)
